@@ -52,7 +52,9 @@ func c07Apply(x *cpuCtx, spec map[string]c03Spec, t c07Trans) (next byte, sig, w
 		e = par.Clone(make([]byte, 16))
 	}
 	cpuP := t.Tracked & 0x30 // the CPU's m and x mirror the assumed widths (relation R)
-	desc := func() string { return fmt.Sprintf("tracked P=%02x, %s mask=%d via=%d", t.Tracked, t.Method, t.Mask, t.Via) }
+	desc := func() string {
+		return fmt.Sprintf("tracked P=%02x, %s mask=%d via=%d", t.Tracked, t.Method, t.Mask, t.Via)
+	}
 	// join: hand the clone back to the parent (Via 1/2); afterwards e is the parent
 	join := func() (sig, what string, refused bool) {
 		if t.Via == 0 {
